@@ -76,7 +76,16 @@ def _resolve_exc(name):
             o = getattr(o, p)
         return o
     from aiocoap import error
-    return getattr(error, name)
+    if hasattr(error, name):
+        return getattr(error, name)
+    # an exception class of the module under test (e.g. aiocoap.oscore.DecodeError)
+    mod = _CURRENT_MODULE[0]
+    if mod is not None and hasattr(mod, name):
+        return getattr(mod, name)
+    raise NotEvaluable('exception class %s' % name)
+
+
+_CURRENT_MODULE = [None]
 
 
 def _eval(text, env):
@@ -98,6 +107,7 @@ def run_contract(contract, args, g):
         except NotEvaluable:
             pass
     mod = importlib.import_module(contract['module'])
+    _CURRENT_MODULE[0] = mod
     f = mod
     for p in contract['qualname'].split('.'):
         f = getattr(f, p)
@@ -126,7 +136,11 @@ def run_contract(contract, args, g):
     if exc is not None:
         matched = None
         for cls, cond in contract['raises'].items():
-            if isinstance(exc, _resolve_exc(cls)):
+            try:
+                klass = _resolve_exc(cls)
+            except NotEvaluable:
+                return 'not-evaluable (exception class %s)' % cls
+            if isinstance(exc, klass):
                 matched = (cls, cond)
                 break
         if matched is None:
